@@ -147,8 +147,8 @@ def ubx(rng, maxlen=300, dense=False) -> bytes:
 
 def ubx_big(rng) -> bytes:
     """UBX frame with a payload of 4097..20000 bytes whose tail is dense in sync-like material."""
-    ln = rng.choice((4097, 4100, 5000, 8192, 20000, rng.randint(4097, 12000)))
-    body = bytearray(rng.getrandbits(8) for _ in range(ln))
+    ln = rng.choice((4097, 4100, 5000, 8192, 20000, rng.randint(4097, 12000), 32767, 32768, 65534, 65535))
+    body = bytearray(rng.randbytes(ln))
     tail = rng.choice((b"\xd3\x03\xff", b"$GNGGA,", b"\xb5\x62\x01\x02\xff\x0f", b"\xd3\x00\x40", b"$P"))
     pos = ln - len(tail) - rng.randint(0, 12)
     body[pos:pos + len(tail)] = tail
@@ -170,8 +170,23 @@ def hostile_noise(rng, maxlen=40) -> bytes:
                  for _ in range(rng.randint(1, maxlen)))
 
 
+GREETINGS = (b"ICY 200 OK\r\n", b"ICY 200 OK\r\n\r\n", b"HTTP/1.1 200 OK\r\nNtrip-Version: Ntrip/2.0\r\nContent-Type: gnss/data"
+             b"\r\n\r\n", b"SOURCETABLE 200 OK\r\n", b"HTTP/1.0 200 OK\r\n", b"ICY 200 OK\r\nServer: NTRIP Caster 2.0\r\n")
+
+
+def greeting(rng) -> bytes:
+    """What an NTRIP caster sends before the data (contains none of the three sync characters: legal noise)."""
+    return rng.choice(GREETINGS)
+
+
 def pseudo_frame(rng) -> bytes:
-    """CRC-valid 'frame' whose six reserved bits are non-zero (must never be delivered as such)."""
+    """CRC-valid 'frame' that is NOT a well-formed RTCM3 frame: reserved bits set, a wide length field, or a foreign
+    lead byte (0xB5 / 0x24 instead of the preamble) in front of an otherwise consistent block."""
+    if rng.random() < 0.25:
+        p = rand_unknown_payload(rng, rng.randint(2, 30))
+        lead = rng.choice((0xB5, 0x24, 0xB5, 0x24, 0xD2, 0x53))
+        body = bytes([lead, len(p) >> 8, len(p) & 0xFF]) + p
+        return body + refcrc.crc_ref2(body).to_bytes(3, "big")
     if rng.random() < 0.5:
         # length taken over more than 10 bits: the enclosed size matches the WIDE reading
         hi = rng.choice((0x04, 0x04, 0x05, 0x06, 0x07, 0x08, 0x10))
